@@ -116,6 +116,11 @@ def check_pair(res):
         tot = max(float(np.max(np.abs(a))), 1e-300)
         # integrator budget (rtol 1e-5 per step, atol 1e-5 absolute) + the 0.1-object thresholds on either side
         thr = 0.25 * (1 + 1 / lam) * (1 if nm[0] == "N" else 100.0)
+        if nm in ("Nr", "Mr"):
+            # every turned-off star bin withholds its own 0.1-object residue, whatever N0: up to 0.1 per star bin can be missing from one
+            # remnant bin in either run (observed: 0.36 = 0.1 x 4 bins x (1 - 1/lambda) at 1e-12 and under max_step=0.002 alike)
+            nms = np.array(res["Ns"][0]).shape[-1]
+            thr = max(thr, 0.1 * nms * (1 + 1 / lam) * (1 if nm[0] == "N" else 100.0))
         rel = 1e-4
         if res.get("level") == 10 and nm in ("Nr", "Mr"):
             rel = 5e-2 if res.get("kind") in ("kicks", "fbh") or res["cfg"]["kw"].get("BH_ret_dyn", 1.0) < 1.0 else 5e-3
